@@ -202,6 +202,10 @@ def families():
             for how in ('arg', 'main', 'env'):
                 for perm in itertools.permutations(['f1', 'f2', 'f3'][:n]):
                     yield ('last-listed', (o, perm, how))
+        # F4: a feature named more than once in a list (its last mention counts)
+        for lst in (('f1', 'f2', 'f1'), ('f2', 'f1', 'f2'), ('f1', 'f2', 'f3', 'f1'), ('f1', 'f1', 'f2'), ('f3', 'f1', 'f3', 'f2', 'f3')):
+            for how in ('arg', 'main', 'env'):
+                yield ('repeated', (o, lst, how))
         # F5: nested features
         for depth in (2, 3):
             for how in ('arg', 'main', 'env', 'env+arg', 'env+main'):
@@ -270,6 +274,16 @@ def build(family, params, defaults):
         p.expected = p.sections[last][o]
         p.why = 'among enabled features the last-listed one wins'
         p.nsources = len(perm)
+    elif family == 'repeated':
+        o, lst, how = params
+        S = sentinels(o, 6)
+        p = Placement(o)
+        for i, f in enumerate(sorted(set(lst))):
+            p.sections[f] = {o: S[i]}
+        enable_list(p, list(lst), how)
+        p.expected = p.sections[lst[-1]][o]
+        p.why = 'among enabled features the last-listed one wins (a feature named twice counts where it is named last)'
+        p.nsources = len(set(lst))
     elif family == 'nested':
         o, depth, how = params
         S = sentinels(o, 6)
